@@ -508,7 +508,9 @@ pub fn simulate(cfg: SimConfig, bodies: Vec<Box<dyn FnOnce() + Send + 'static>>)
     for (i, body) in bodies.into_iter().enumerate() {
         let panics = panics.clone();
         let finished = finished.clone();
-        handles.push(std::thread::spawn(move || {
+        // (generous stacks: some workloads evaluate trees more than a thousand levels deep)
+        let builder = std::thread::Builder::new().stack_size(32 << 20);
+        handles.push(builder.spawn(move || {
             ME.with(|m| m.set(Some(i)));
             {
                 let tid = current_tid();
@@ -532,7 +534,7 @@ pub fn simulate(cfg: SimConfig, bodies: Vec<Box<dyn FnOnce() + Send + 'static>>)
             }
             // (the thread is marked finished by its DoneGuard, after its other thread-local
             // destructors have run)
-        }));
+        }).expect("spawn simulated thread"));
     }
     // start: the scheduler picks the first thread
     {
